@@ -189,6 +189,23 @@ func TestC06(t *testing.T) {
 			return map[string]any{"scenario": "join refused by a node that has just lost its predecessor", "refusals": n}
 		}, "scenario:refused-join-without-predecessor")
 	}
+	// schedule-stress tier: simultaneous membership requests at ONE real node, scripted neighbours
+	{
+		p, replay, done, contended := membershipLockStress(ev.ShardSeed(), ev.Pick(300000, 2000000))
+		rec.Add("lock_stress_rounds", int64(done))
+		rec.Add("lock_stress_rounds_contended", int64(contended))
+		switch {
+		case p != "" && len(p) > 13 && p[:13] == "precondition:":
+			rec.Inconclusive("lock-stress-precondition")
+			t.Logf("lock stress: %s", p)
+		case p != "":
+			rec.Fail(t, "membership-lock-violated-under-simultaneous-requests", replay, "%s", p)
+		default:
+			rec.Case(contended > 0, "stress:simultaneous-membership-requests", func() any {
+				return map[string]any{"scenario": "2-4 join/leave requests hit one real node at the same instant (spin barrier), nothing is released before all are answered; winner finishes and releases; keys accounted for at the end", "rounds": done, "contended_rounds": contended}
+			}, "stress:simultaneous-membership-requests")
+		}
+	}
 	// regression tier: the minimal schedule of a non-retryable refusal found by the thorough tier
 	if p := joinRoutedThroughJoiningNode(); p != "" {
 		if len(p) > 13 && p[:13] == "precondition:" {
